@@ -45,11 +45,57 @@ def check(ctx):
             ctx.unknown("R08.1", q, "anchor function missing")
             return
     _threading(ctx, P)
+    _method_wrapper(ctx, P)
     _kernel(ctx, P)
     _mask_many(ctx, P)
     _log(ctx, P)
     _naming(ctx, P)
     _guards(ctx, P)
+
+
+def _method_wrapper(ctx, P):
+    """R08.1: Grid.transform hands its own arguments to transform.transform, each to the parameter of that meaning, and
+    every keyword option of the caller unchanged."""
+    gfi = P.func("grid:Grid.transform")
+    tfi = P.func("transform:transform")
+    got = []
+
+    def m_transform(ev, args, kw, node):
+        names = [a.arg for a in tfi.node.args.posonlyargs + tfi.node.args.args]
+        b = dict(zip(names, args))
+        b.update(kw)
+        got.append(b)
+        return Obj("DataArray", "TRANSFORMED")
+
+    opts = {"target_data": Sym("U_TD"), "target_dim": Sym("U_TDIM"), "method": Sym("U_METHOD"), "mask_edges": Sym("U_MASK"), "bypass_checks": Sym("U_BYPASS"), "suffix": Sym("U_SUFFIX")}
+    ev = Evaluator(P, models={"transform:transform": m_transform})
+    g = make_grid(("AZ",))
+    kwname = gfi.params[3]
+    try:
+        outs = ev.run_paths(gfi, lambda: {"self": g, "da": Sym("U_DA"), "axis": Sym("U_AXIS"), "target": Sym("U_TARGET"), **({kwname: dict(opts)} if kwname else dict(opts))})
+    except Unmodelled as e:
+        ctx.unknown("R08.1", "Grid.transform -> transform", str(e))
+        return
+    rets = [o for o in outs if o.kind == "return"]
+    bad = None
+    if not rets or len(got) < 1:
+        bad = f"Grid.transform never reaches transform.transform ({[(o.kind, o.value) for o in outs]})"
+    else:
+        b = got[-1]
+        want = {"grid": g, "axis_name": Sym("U_AXIS"), "da": Sym("U_DA"), "target": Sym("U_TARGET"), **opts}
+        for k, v in want.items():
+            if k not in b or (b[k] is not v and b[k] != v):
+                bad = f"transform() receives {k}={b.get(k, '<nothing>')!r}; the caller's {'grid' if k == 'grid' else 'value ' + repr(v)} must arrive there"
+                break
+        if not bad and not all(isinstance(o.value, Obj) and o.value.name == "TRANSFORMED" for o in rets):
+            bad = "the result of transform() is not what Grid.transform returns"
+    if bad:
+        ctx.report("R08.1", gfi, "Grid.transform -> transform", bad)
+    else:
+        ctx.ok("R08.1", "Grid.transform -> transform", "grid, axis, data, target and all six options arrive at the parameter of that meaning")
+
+
+OMIT = object()
 
 
 def run_transform(P, method="linear", target=None, target_data="given", target_dim=None, da_dims=None, td_dims=None, td_name=Sym("tdn"), **opts):
@@ -91,6 +137,8 @@ def run_transform(P, method="linear", target=None, target_data="given", target_d
         tg = target if target is not None else make_da("target", [Sym("lev")])
         b = dict(grid=g, axis_name=Sym("AZ"), da=da, target=tg, target_data=td, target_dim=target_dim, method=method, mask_edges=Sym("U_MASK"), bypass_checks=Sym("U_BYPASS"), suffix=Sym("U_SUFFIX"))
         b.update(opts)
+        for k in [k for k, v in b.items() if v is OMIT]:
+            del b[k]  # left out by the caller: the default of the source applies
         return b
 
     outs = ev.run_paths(tfi, mk)
@@ -99,6 +147,17 @@ def run_transform(P, method="linear", target=None, target_data="given", target_d
 
 def _threading(ctx, P):
     tfi = P.func("transform:transform")
+    # a caller that does not mention bypass_checks gets the direction handling: strictly decreasing target_data is part of
+    # the property for the plain call
+    try:
+        outs, calls = run_transform(P, "linear", bypass_checks=OMIT)
+        got = [kw.get("bypass_checks") for kind, a, kw in calls]
+        if len(calls) != 1 or got != [False]:
+            ctx.report("R08.1", tfi, "transform() without bypass_checks", f"the kernel receives bypass_checks={got!r}: the direction of target_data is not examined unless the caller asks for it")
+        else:
+            ctx.ok("R08.1", "transform() without bypass_checks", "direction handling on by default")
+    except Unmodelled as e:
+        ctx.unknown("R08.1", "transform() without bypass_checks", str(e))
     for method in ("linear", "log", "conservative"):
         inst = f"transform(method='{method}') option threading"
         try:
